@@ -8,8 +8,10 @@ Local Open Scope Z_scope.
 Definition writes (o : op) : list nat :=
   match o with
   | Done h | Init h | Del h | Append h _ | TokEval h | UrlUnparse h | ReSetFlags h _ | ReCompile h
-  | LRemove h _ | LRemoveAt h _ | LReverse h | VRemove h _ | MSet h _ _ | MSetPair h _ | MSetOwn h _ _ | MRemove h _ => [h]
-  | SetKey p h | SetValue p h | TokSetSrc p h | TokSetSep p h | UrlSet p _ h =>
+  | LRemove h _ | LRemoveAt h _ | LReverse h | VRemove h _ | MSet h _ _ | MSetPair h _ | MSetOwn h _ _ | MRemove h _
+  | TokSetChar h _ _ | TokListRemoveAt h _ | MemberAppend h _ _ | SetLen h _ => [h]
+  | TokListAppend t h => [t; h]
+  | SetKey p h | SetValue p h | TokSetSrc p h | TokSetSep p h | UrlSet p _ h | TokSetTokens p h =>
       p :: match h with Some x => [x] | None => [] end
   | LAppend c h | LPrepend c h | LInsert c h | LInsertAt c h _ | VInsert c h => [c; h]
   | MKeys _ d | MValues _ d | MPairs _ d => match d with Some x => [x] | None => [] end
@@ -252,6 +254,49 @@ Proof.
     destruct (as_cont co) as [[[[[i k] a] al] xs]|]; cbn [bind] in E; [|discriminate].
     match type of E with (if ?c then _ else _) = _ => destruct c end; [discriminate|].
     destruct (query_walk i po xs); inv E. apply keeps_refl.
+  - (* TokSetChar *)
+    destruct (get w t) as [x|]; cbn [bind] in E; [|discriminate].
+    match type of E with (if ?c then _ else _) = _ => destruct c end; [discriminate|].
+    destruct x; try discriminate. destruct which as [|[|[|?]]]; try discriminate;
+      (inv E; intros o L; cbn [held]; rewrite lookup_put_ne by nw; exact L).
+  - (* TokSetTokens *) eapply setter_keeps; [exact E|nw|]. intros y ->. nw.
+  - (* TokListRemoveAt *)
+    destruct (get w t) as [x|]; cbn [bind] in E; [|discriminate].
+    destruct x as [| | | | |a0 b0 [[| | | | | | | |[] k ad al xs| |]|] ch| | | | |]; try discriminate.
+    destruct (in_range xs idx) as [n|];
+      (match type of E with Ok ?hb = _ => destruct hb as [w1 r1] eqn:H end; inv E;
+       eapply hand_back_keeps; [exact H|]; intros y L; rewrite ?lookup_put_ne by nw; exact L).
+  - (* TokListAppend *)
+    destruct (get w t) as [x|]; cbn [bind] in E; [|discriminate].
+    destruct (Nat.eqb t h0); [discriminate|].
+    destruct (get w h0) as [y|]; cbn [bind] in E; [|discriminate].
+    destruct (negb (storable y)); [discriminate|].
+    destruct x as [| | | | |a0 b0 [[| | | | | | | |[] k ad al xs| |]|] ch| | | | |]; try discriminate. inv E.
+    intros o L. cbn [held]. rewrite lookup_put_ne, lookup_drop_ne by nw. exact L.
+  - (* MemberAppend *)
+    destruct (get w h0) as [x|]; cbn [bind] in E; [|discriminate].
+    destruct x as [| | | |pk pv|a0 b0 l0 ch|us cs| | | |]; try discriminate.
+    + destruct sel as [|[|?]]; try discriminate;
+        (match type of E with (x <- ?M ;; _) = _ => destruct M as [[m' d]|] end; cbn [bind] in E; [|discriminate];
+         inv E; intros o L; cbn [held]; rewrite lookup_put_ne by nw; exact L).
+    + destruct sel as [|[|?]]; try discriminate;
+        (match type of E with (x <- ?M ;; _) = _ => destruct M as [[m' d]|] end; cbn [bind] in E; [|discriminate];
+         inv E; intros o L; cbn [held]; rewrite lookup_put_ne by nw; exact L).
+    + destruct (sel <? length cs)%nat; [|discriminate].
+      destruct (member_app (nth_comp cs sel) t) as [[m' d]|]; cbn [bind] in E; [|discriminate].
+      inv E. intros o L. cbn [held]. rewrite lookup_put_ne by nw. exact L.
+  - (* SetLen *)
+    destruct (get w h0) as [x|]; cbn [bind] in E; [|discriminate].
+    destruct (k <? 0).
+    + destruct x; try discriminate; inv E; apply keeps_refl.
+    + destruct x as [| | |mb| | | | | | |]; try discriminate.
+      match type of E with (if ?c then _ else _) = _ => destruct c end; [discriminate|]. inv E.
+      intros o L. cbn [held]. rewrite lookup_put_ne by nw. exact L.
+  - (* NewFromStream *)
+    destruct (stream_text c v k content pos) as [[bo|]|]; cbn [bind] in E; [| |discriminate].
+    + eapply fresh_keeps; exact E.
+    + match type of E with Ok ?hb = _ => destruct hb as [w1 r1] eqn:H end. inv E.
+      eapply hand_back_keeps; eauto.
 Qed.
 
 (* a whole history that never writes h *)
